@@ -30,21 +30,26 @@ type Program struct {
 }
 
 type Type struct {
-	Name       string    `json:"name"`
-	Ifaces     []int     `json:"ifaces,omitempty"`
-	Init       bool      `json:"init,omitempty"`
-	APS        bool      `json:"aps,omitempty"`
-	Qual       bool      `json:"qual,omitempty"`
-	Primary    bool      `json:"primary,omitempty"`
-	Lazy       bool      `json:"lazy,omitempty"`
-	Role       string    `json:"role,omitempty"`       // "", "runner", "closer"
-	OrderClass string    `json:"orderClass,omitempty"` // "", "ordered", "priority"
-	Funcs      []string  `json:"funcs,omitempty"`      // result-less methods
-	HasKind    bool      `json:"hasKind,omitempty"`    // Kind() string
-	Points     []*Point  `json:"points,omitempty"`
-	Frame      []*Frame  `json:"frame,omitempty"`
-	Config     []*Conf   `json:"config,omitempty"`
-	Custom     []*Custom `json:"custom,omitempty"`
+	Name       string   `json:"name"`
+	Ifaces     []int    `json:"ifaces,omitempty"`
+	Init       bool     `json:"init,omitempty"`
+	APS        bool     `json:"aps,omitempty"`
+	Qual       bool     `json:"qual,omitempty"`
+	Primary    bool     `json:"primary,omitempty"`
+	Lazy       bool     `json:"lazy,omitempty"`
+	Role       string   `json:"role,omitempty"`       // "", "runner", "closer"
+	OrderClass string   `json:"orderClass,omitempty"` // "", "ordered", "priority"
+	Funcs      []string `json:"funcs,omitempty"`      // result-less methods
+	HasKind    bool     `json:"hasKind,omitempty"`    // Kind() string
+	// Proc: the component is itself an (unordered, observing) ComponentPostProcessor.
+	Proc bool `json:"proc,omitempty"`
+	// Zero: a field-less (zero-size) provider type: no handle, no custom name, one instance.
+	// Distinct zero-size components may share one address.
+	Zero   bool      `json:"zero,omitempty"`
+	Points []*Point  `json:"points,omitempty"`
+	Frame  []*Frame  `json:"frame,omitempty"`
+	Config []*Conf   `json:"config,omitempty"`
+	Custom []*Custom `json:"custom,omitempty"`
 }
 
 // Point kinds.
